@@ -9,6 +9,7 @@ import (
 	"sync"
 	"testing"
 
+	"github.com/tailscale/setec/client/setec"
 	"pgregory.net/rapid"
 	"verifharness/h"
 	"verifharness/model"
@@ -112,6 +113,25 @@ func runC13Faults(t *testing.T, c CacheFaultCase) (*h.Violation, h.Info) {
 				default:
 					results[i].v = h.V("crash-leaves-old-or-new-document", "after the kill the cache file holds %d bytes that are neither the old (%d) nor the new (%d) document: %.80q", len(got), len(oldDoc), len(newDoc), got)
 				}
+				if results[i].v == nil {
+					// life goes on: the next process writes its cache - whatever the killed writer left
+					// behind in the directory - and finds it again (a shorter document, then the new one)
+					fc, err := setec.NewFileCache(path)
+					if err != nil {
+						results[i].v = h.V("after-a-kill-the-cache-is-usable", "after the kill NewFileCache(%s) fails: %v", path, err)
+						return
+					}
+					for _, doc := range [][]byte{retryDoc, newDoc} {
+						if err := fc.Write(doc); err != nil {
+							results[i].v = h.V("after-a-kill-the-cache-is-usable", "after the kill the next process cannot write its cache: %v (directory now holds %v)", err, lsDir(filepath.Dir(path)))
+							return
+						}
+						if back, err := fc.Read(); err != nil || !bytes.Equal(back, doc) {
+							results[i].v = h.V("after-a-kill-the-cache-is-usable", "after the kill the next process wrote %d bytes and reads back %d bytes (%v)", len(doc), len(back), err)
+							return
+						}
+					}
+				}
 				return
 			}
 			r, _ := stdoutField(o.Stdout, "RESULT")
@@ -160,6 +180,15 @@ func runC13Faults(t *testing.T, c CacheFaultCase) (*h.Violation, h.Info) {
 		}
 	}
 	return nil, info
+}
+
+func lsDir(d string) []string {
+	es, _ := os.ReadDir(d)
+	var out []string
+	for _, e := range es {
+		out = append(out, e.Name())
+	}
+	return out
 }
 
 var (
